@@ -592,6 +592,123 @@ func C07(c *runner.Cfg) *report.Result {
 			d.plans.Delete(p.id)
 		}, nil)
 	}
+	// (F) several goroutines send on the same channel (Send serialises them): while the receiver
+	// keeps consuming, every blocked Send must be admitted and every sender's messages must arrive in
+	// that sender's order
+	{
+		type multi struct {
+			next     [8]atomic.Int32
+			total    atomic.Int32
+			bad      atomic.Pointer[string]
+			expected int32
+		}
+		var cases sync.Map // channel id -> *multi
+		mh := mpx.HandleFunc(func(ctx mpx.Context, ch mpx.Channel) status.Status {
+			for {
+				b, st := ch.Receive(ctx)
+				if !st.OK() {
+					return status.OK
+				}
+				id, dir, seq, _, full := netx.Describe(b)
+				if !full {
+					continue
+				}
+				v, ok := cases.Load(id)
+				if !ok {
+					continue
+				}
+				m := v.(*multi)
+				if int(dir) < len(m.next) {
+					if want := m.next[dir].Load(); int32(seq) != want {
+						s := fmt.Sprintf("sender %d: received message %d, expected %d", dir, seq, want)
+						m.bad.CompareAndSwap(nil, &s)
+					}
+					m.next[dir].Add(1)
+				}
+				m.total.Add(1)
+			}
+		})
+		msrv, maddr, err := StartServer(mh, logger, Opts(0, 0, 0, 0, false))
+		if err == nil {
+			defer StopServer(msrv)
+			c.Cases("C07/multi", c.N(60, 2000), func(idx int, _ *journal.Slot) {
+				rr := rng.New(c.Seed, "c07/multi", uint64(idx))
+				W := []int{64, 1000, 4096, 10000, 65536}[rr.Intn(5)]
+				K := 2 + rr.Intn(3)
+				al := alphabet(W)
+				id := uint32(0x07F00000 + idx)
+				m := &multi{}
+				plan := make([][]int, K)
+				for k := range plan {
+					for i, n := 0, 2+rr.Intn(6); i < n; i++ {
+						sz := al[rr.Intn(len(al))]
+						if sz < netx.MinFull {
+							sz = netx.MinFull
+						}
+						plan[k] = append(plan[k], sz)
+						m.expected++
+					}
+				}
+				m.expected++ // the opening message
+				cases.Store(id, m)
+				defer cases.Delete(id)
+				res.Eval(1)
+				conn, st := mpx.Connect(noCtx, maddr, logger, Opts(W, 0, 0, 0, false))
+				if !st.OK() {
+					res.Inconcl("connect: %v", st)
+					return
+				}
+				defer conn.Close()
+				ch, st := conn.Channel(noCtx)
+				if !st.OK() {
+					res.Inconcl("channel: %v", st)
+					return
+				}
+				defer ch.Free()
+				if st := ch.Send(noCtx, netx.MakePayload(id, 7, 0, netx.MinFull)); !st.OK() {
+					res.Inconcl("open: %v", st)
+					return
+				}
+				var wg sync.WaitGroup
+				var sendErr atomic.Pointer[string]
+				for k := range plan {
+					wg.Add(1)
+					go func(k int) {
+						defer wg.Done()
+						for i, sz := range plan[k] {
+							if st := ch.Send(noCtx, netx.MakePayload(id, byte(k), uint32(i), sz)); !st.OK() {
+								s := fmt.Sprintf("sender %d message %d: %v", k, i, st)
+								sendErr.CompareAndSwap(nil, &s)
+								return
+							}
+						}
+					}(k)
+				}
+				w := map[string]any{"stream": "C07/multi", "index": idx, "window": W, "senders": K, "sizes_per_sender": plan}
+				if !WaitTimeout(&wg, Watchdog) {
+					c.Abort.Store(true)
+					w["received_by_server"] = m.total.Load()
+					w["goroutines"] = Goroutines(6)
+					res.Violate("c07:progress:concurrent-senders", fmt.Sprintf("%d goroutines send on one channel (W=%d) and the receiver keeps consuming, yet a blocked Send was not admitted within %v (server received %d of %d messages)", K, W, Watchdog, m.total.Load(), m.expected), w)
+					return
+				}
+				if e := sendErr.Load(); e != nil {
+					res.Inconcl("multi %d: %s", idx, *e)
+					return
+				}
+				if !Settle(Watchdog, func() bool { return m.total.Load() >= m.expected }) {
+					c.Abort.Store(true)
+					res.Violate("c07:progress:concurrent-senders", fmt.Sprintf("every Send returned OK but the server received %d of %d messages within %v", m.total.Load(), m.expected, Watchdog), w)
+					return
+				}
+				if b := m.bad.Load(); b != nil {
+					res.Violate("c07:concurrent-senders-order", "messages of one sender arrived out of that sender's order: "+*b, w)
+					return
+				}
+				res.Nontrivial(rng.HashString(fmt.Sprint("multi", idx, W, plan)))
+			}, nil)
+		}
+	}
 	res.Count("hook_admissions_checked", admits.Load())
 	res.Count("hook_window_checks", checks.Load())
 	fk, fd := hooks.Failures()
